@@ -23,5 +23,9 @@ def run(ctx):
         jobs = sel[:]
         ctx.exhaustive = False
     fl.run_mixes(ctx, rp, jobs, max_paths=400 if ctx.quick else None)
+    # code -> spec: random schedules with more competing resolvers than the dumped graphs, validated as traces
+    big = [(["val", "exc", "drop", "mdes"], ["co"]), (["val", "val", "exc", "dtor"], ["bl", "cb"]), (["drop", "mdes", "mdes", "val", "dtor"], [])]
+    for k, (r, w) in enumerate(big if not ctx.quick else big[:2]):
+        fl.explore_validate(ctx, rp, r, w, "tv%d" % k, 150 if ctx.quick else 1500)
     ctx.assume("compare_exchange_weak does not fail spuriously (x86-64 lock cmpxchg); weak CAS is executed as strong under the controlled scheduler")
     ctx.assume("value type int; payload abstracted to the identity of the resolver that wrote it")
